@@ -1076,7 +1076,13 @@ func (fr *frame) visit(instr ssa.Instruction) continuation {
 	case *ssa.Extract:
 		fr.set(in, fr.get(in.Tuple).(Tuple)[in.Index])
 	case *ssa.Slice:
-		fr.set(in, ex.sliceOp(in, fr.get(in.X), fr.get(in.Low), fr.get(in.High), fr.get(in.Max)))
+		cv := func(v ssa.Value) Value {
+			if v == nil {
+				return nil
+			}
+			return ex.toIndex(fr.get(v).(*Term), isSigned(v.Type()))
+		}
+		fr.set(in, ex.sliceOp(in, fr.get(in.X), cv(in.Low), cv(in.High), cv(in.Max)))
 	case *ssa.Return:
 		switch len(in.Results) {
 		case 0:
@@ -1156,9 +1162,9 @@ func (fr *frame) visit(instr ssa.Instruction) continuation {
 	case *ssa.Field:
 		fr.set(in, copyVal(fr.get(in.X).(StructV)[in.Field]))
 	case *ssa.IndexAddr:
-		fr.set(in, ex.indexAddr(fr.get(in.X), fr.get(in.Index).(*Term)))
+		fr.set(in, ex.indexAddr(fr.get(in.X), ex.toIndex(fr.get(in.Index).(*Term), isSigned(in.Index.Type()))))
 	case *ssa.Index:
-		fr.set(in, ex.index(fr.get(in.X), fr.get(in.Index).(*Term)))
+		fr.set(in, ex.index(fr.get(in.X), ex.toIndex(fr.get(in.Index).(*Term), isSigned(in.Index.Type()))))
 	case *ssa.Lookup:
 		fr.set(in, ex.lookup(in, fr.get(in.X), fr.get(in.Index)))
 	case *ssa.MapUpdate:
